@@ -233,7 +233,8 @@ pub fn main(job_path: &str) -> i32 {
 
   // concurrent consumers must observe the disconnect (bounded wait: a consumer that never
   // sees it is reported as such, the child does not hang on it)
-  let deadline = Instant::now() + Duration::from_secs(20);
+  let wait: u64 = std::env::var("VERIF_DISCONNECT_SECS").ok().and_then(|v| v.parse().ok()).unwrap_or(6);
+  let deadline = Instant::now() + Duration::from_secs(wait);
   for (name, got, h) in consumers {
     while !h.is_finished() && Instant::now() < deadline {
       std::thread::sleep(Duration::from_millis(2));
